@@ -105,7 +105,7 @@ def ob_hash_view(r, tier, seed):
         r.findings.append(Finding('field-not-hashed', pr, {}, True, 'read from the derive-generated Serialize impl (MIR of the current tree)'))
 
 # ----------------------------------------------------------------------------- O15.3 the link gate
-def ob_link_gate(r, tier, seed, pkgs):
+def ob_link_gate(r, tier, seed, pkgs, dup=None):
     W = e2.fresh_world(CRATES)
     CU = W.tt.find_adt(['artifact', 'CoreUnit'], 'compiler'); IU = W.tt.find_adt(['artifact', 'InterfaceUnit'], 'compiler')
     CF = W.tt.find_adt(['core', 'File'], 'compiler'); FN = W.tt.find_adt(['core', 'Fn'], 'compiler')
@@ -118,15 +118,16 @@ def ob_link_gate(r, tier, seed, pkgs):
     dep = {(p, q): z3.Bool('dep_%s_%s' % (p, q)) for p in names for q in cand if p != q}
     want = {(p, q): z3.Int('want_%s_%s' % (p, q)) for p in names for q in cand if p != q}
     own = {p: z3.Int('hash_%s' % p) for p in names}
-    hasmain = z3.Bool('main_has_main')
-    ass = [z3.Or(v == 49, v == 50) for v in list(want.values()) + list(own.values())]
-    r.bounds = 'cores for any subset of packages %s; every dependency bit symbolic (also on a package that is not provided); interface hashes and expected hashes symbolic over two values; Main with or without a main function' % names
+    hasmain = z3.Bool('main_has_main'); dupb = z3.Bool('second_core_of_%s' % dup); own2 = z3.Int('hash2_%s' % dup)
+    ass = [z3.Or(v == 49, v == 50) for v in list(want.values()) + list(own.values()) + [own2]]
+    r.bounds = 'cores for any subset of packages %s; every dependency bit symbolic (also on a package that is not provided); interface hashes and expected hashes symbolic over two values; Main with or without a main function' % names + ('' if dup is None else '; optionally a second core of package %s whose interface hash is equal to or different from the first (symbolic)' % dup)
     r.assumptions = ['exploration is cut at the call to separate::topo_sort (the gate is everything before it); compile_error message formatting stubbed',
+                     'a package provided twice must be rejected: at most one of two cores of a package is the one its current sources produce (an older body would be linked silently otherwise)',
                      'oracle: the gate may be passed iff cores are non-empty, Main is present with a main function, and every deps entry names a provided package whose interface_hash equals the expected hash']
-    def unit(ex, p, deps_list):
+    def unit(ex, p, deps_list, second=False):
         iu_fields = []
         for fname, fty in IU.variants[0].fields:
-            if fname == 'interface_hash': iu_fields.append(Str([own[p]]))
+            if fname == 'interface_hash': iu_fields.append(Str([own2 if second else own[p]]))
             elif fname == 'package': iu_fields.append(mkstr(p))
             else: iu_fields.append(Opaque('iu.' + fname))
         m = PyMap('btree')
@@ -146,6 +147,8 @@ def ob_link_gate(r, tier, seed, pkgs):
             if ex.branch_bool(present[p]):
                 dl = [q for q in cand if q != p and ex.branch_bool(dep[(p, q)])]
                 info[p] = dl; cores.append(unit(ex, p, dl))
+                if dup == p and ex.branch_bool(dupb):      # the same package a second time (its interface hash equal or different: symbolic)
+                    cores.append(unit(ex, p, dl, second=True)); ex.notes['dup'] = True
         try:
             res = ex.call('pipeline::separate::link_cores', [PyVec(cores)])
         except Panic as e:
@@ -163,13 +166,15 @@ def ob_link_gate(r, tier, seed, pkgs):
         okf = [z3.BoolVal(bool(info)), z3.BoolVal('Main' in info), hasmain if 'Main' in info else z3.BoolVal(False)]
         for pk, dl in info.items():
             for q in dl: okf.append(z3.BoolVal(False) if q not in info else want[(pk, q)] == own[q])
+        if (p.notes or {}).get('dup'): okf.append(z3.BoolVal(False))      # a package provided twice: at most one of the two cores is the current one
         allowed = z3.And(*okf)
         m, dt = e2.check(ass + p.pc + [allowed if verdict == 'rejected' else z3.Not(allowed)]); r.queries += 1; r.solver_s += dt
         r.nontrivial += 1
         if m is not None:
             w = {'provided': {k: v for k, v in info.items()}, 'hashes': {k: chr(e2.mval(m, v)) for k, v in own.items() if k in info},
                  'expected': {'%s->%s' % k: chr(e2.mval(m, v)) for k, v in want.items() if k[0] in info and k[1] in info[k[0]]}}
-            key = 'stale-link-accepted' if verdict == 'passed' else 'valid-link-rejected'
+            key = ('duplicate-core-accepted' if (p.notes or {}).get('dup') else 'stale-link-accepted') if verdict == 'passed' else 'valid-link-rejected'
+            if (p.notes or {}).get('dup'): w['second_core_of'] = dup; w['second_hash'] = chr(e2.mval(m, own2))
             found.setdefault(key, ('link gate %s although the oracle says the opposite: %s' % (verdict, json.dumps(w)), w))
         elif len(r.samples) < 3: r.samples.append({'provided': info, 'verdict': verdict})
     for key, v in found.items():
@@ -179,6 +184,7 @@ def ob_link_gate(r, tier, seed, pkgs):
 def obligations():
     obs = [Ob('O15.4-hash-view', 'every declared interface field is handed to the hasher', ob_hash_view, ('quick', 'thorough'), 1, {}),
            Ob('O15.3-link-gate-2', 'link gate: passes iff every dependency hash matches (Main + A)', ob_link_gate, ('quick', 'thorough'), 2, dict(pkgs=['Main', 'A'])),
+           Ob('O15.6-link-duplicate-core', 'link gate: a package provided twice is rejected, whatever the interface hash of the second core (Main + A)', ob_link_gate, ('quick', 'thorough'), 3, dict(pkgs=['Main', 'A'], dup='A')),
            Ob('O15.3-link-gate-3', 'link gate: passes iff every dependency hash matches (Main + A + B)', ob_link_gate, ('quick', 'thorough'), 10, dict(pkgs=['Main', 'A', 'B']))]
     try:
         from props import e1_obs
